@@ -545,6 +545,9 @@ func (d *Disj) canonical() (*Disj, map[string]*Term) {
 	return cd, rep
 }
 
+// constClasses: constants take part in the equality classes (ASV_CONSTCLASSES=0 switches it off)
+var constClasses = os.Getenv("ASV_CONSTCLASSES") != "0"
+
 func (d *Disj) canonical0() (*Disj, map[string]*Term) {
 	parent := map[string]string{}
 	terms := map[string]*Term{}
@@ -558,17 +561,36 @@ func (d *Disj) canonical0() (*Disj, map[string]*Term) {
 		parent[k] = r
 		return r
 	}
-	isConst := func(t *Term) bool { return t.K == 'c' || t.K == 'n' }
+	isNil := func(t *Term) bool { return t.K == 'n' }
+	// a string or integer constant may stand for its class (x == "k" lets m[x] be read as m["k"]); nil does not
+	constKey := map[string]bool{}
 	n := 0
 	for _, l := range d.L {
-		if l.A.Op == "eq" && !l.Neg && !isConst(l.A.L) && !isConst(l.A.R) && l.A.L.K != 'o' && l.A.R.K != 'o' {
+		if l.A.Op == "eq" && !l.Neg && !isNil(l.A.L) && !isNil(l.A.R) && l.A.L.K != 'o' && l.A.R.K != 'o' && !(l.A.L.K == 'c' && l.A.R.K == 'c') {
+			if (l.A.L.K == 'c' || l.A.R.K == 'c') && !constClasses {
+				continue
+			}
 			terms[l.A.L.key], terms[l.A.R.key] = l.A.L, l.A.R
+			if l.A.L.K == 'c' {
+				constKey[l.A.L.key] = true
+			}
+			if l.A.R.K == 'c' {
+				constKey[l.A.R.key] = true
+			}
 			a, b := find(l.A.L.key), find(l.A.R.key)
 			if a != b {
-				// the smaller key becomes the root (deterministic)
-				if a < b {
+				// a constant becomes the root, else the smaller key (deterministic)
+				switch {
+				case constKey[a] && constKey[b]:
+					d.canonBad = true // two different constants in one class
 					parent[b] = a
-				} else {
+				case constKey[a]:
+					parent[b] = a
+				case constKey[b]:
+					parent[a] = b
+				case a < b:
+					parent[b] = a
+				default:
 					parent[a] = b
 				}
 				n++
@@ -578,11 +600,68 @@ func (d *Disj) canonical0() (*Disj, map[string]*Term) {
 	if n == 0 {
 		return nil, nil
 	}
-	rep := map[string]*Term{}
-	for k := range terms {
-		if r := find(k); r != k {
-			rep[k] = terms[r]
+	union := func(a, b string) bool {
+		a, b = find(a), find(b)
+		if a == b {
+			return false
 		}
+		switch {
+		case constKey[a] && constKey[b]:
+			d.canonBad = true
+			parent[b] = a
+		case constKey[a]:
+			parent[b] = a
+		case constKey[b]:
+			parent[a] = b
+		case a < b:
+			parent[b] = a
+		default:
+			parent[a] = b
+		}
+		return true
+	}
+	rep := map[string]*Term{}
+	build := func() {
+		rep = map[string]*Term{}
+		for k := range terms {
+			if r := find(k); r != k {
+				rep[k] = terms[r]
+			}
+		}
+	}
+	build()
+	// congruence: a member of a class read over the representatives of its own subterms is the same value
+	// (f(obj) with obj == set is f(set)): such readings join the class, until nothing new appears
+	for round := 0; round < 3; round++ {
+		changed := false
+		var keys []string
+		for k := range terms {
+			keys = append(keys, k)
+		}
+		sort.Strings(keys)
+		for _, k := range keys {
+			t := terms[k]
+			if len(t.A) == 0 {
+				continue
+			}
+			rt := rewriteArgs(t, rep, 0)
+			if rt.key == k {
+				continue
+			}
+			if _, known := terms[rt.key]; !known {
+				terms[rt.key] = rt
+				if rt.K == 'c' {
+					constKey[rt.key] = true
+				}
+			}
+			if union(k, rt.key) {
+				changed = true
+			}
+		}
+		if !changed {
+			break
+		}
+		build()
 	}
 	out := newDisj()
 	for _, l := range d.L {
@@ -1002,13 +1081,10 @@ func newBounds(d *Disj) *bounds {
 			}
 		}
 		for _, t := range lens {
-			if _, isNode := b.idx[t.key]; !isNode {
-				continue
-			}
 			for _, o := range d.EqualTerms(t.A[0]) {
 				if o.K == 'k' {
 					if k, ok := subSeqFuncs[o.S]; ok && k < len(o.A) {
-						cs = append(cs, cons{t.key, node(LenOf(o.A[k])), 0})
+						cs = append(cs, cons{node(t), node(LenOf(o.A[k])), 0})
 					}
 				}
 			}
